@@ -71,6 +71,10 @@ def gen_gs(rnd, big=False):
     if rnd.random() < 0.3 or many:
         gdtype = "int"
         labels = rnd.sample(range(0, 40 if many else 9), n_groups)
+        if rnd.random() < 0.3:
+            # large adjacent identifiers (customer / device ids): distinct labels that are relatively close
+            base_id = rnd.choice([100000, 10 ** 7, 2 ** 31, 10 ** 12])
+            labels = [base_id + v for v in labels]
     else:
         gdtype = "str"
         labels = rnd.sample(rnd.choice(LABEL_POOLS), n_groups)
@@ -197,7 +201,8 @@ def generate(rnd, tier):
         elif r < 0.52:
             op = {"op": "group_metric", "obj": oi, "name": rnd.choice(GROUP_METRICS), "thr": gen_thr(rnd)}
         elif r < 0.62:
-            op = {"op": "groupwise", "obj": oi, "metric": rnd.choice(["fnr", "fpr", "tpr", "cm_flat", "n_hard", "threshold_at_fnr", "raising", "guarded_rate", "guarded_rate"]),
+            op = {"op": "groupwise", "obj": oi, "metric": rnd.choice(["fnr", "fpr", "tpr", "cm_flat", "n_hard", "threshold_at_fnr", "raising", "guarded_rate", "guarded_rate",
+                                                                           "user_fnr", "user_far", "user_tpr"]),
                   "thr": gen_thr(rnd), "fail_at": rnd.randint(0, 4)}
         elif r < 0.68:
             op = {"op": "swap", "obj": oi}
@@ -425,6 +430,16 @@ def _metric_callable(name):
         return lambda s, threshold: np.asarray(s.cm(threshold)).reshape(np.shape(threshold) + (4,))
     if name == "n_hard":
         return lambda s, threshold: np.asarray([s.nb_hard_pos, s.nb_hard_neg])
+    if name in ("user_fnr", "user_far", "user_tpr"):
+        # the user's own function that happens to carry the name of a built-in metric (a smoothed rate, a count)
+        base = name[5:]
+        lib_name = {"far": "fpr"}.get(base, base)
+
+        def user_metric(s, threshold):
+            return 0.5 * np.asarray(getattr(type(s), lib_name)(s, threshold), dtype=float) + 0.125
+
+        user_metric.__name__ = user_metric.__qualname__ = base
+        return user_metric
     if name == "guarded_rate":
         # a guard that returns a Python int for a group without positives and a float rate otherwise
         return lambda s, threshold: 0 if s.nb_all_pos == 0 else float(np.mean(np.asarray(s.fnr(threshold), dtype=float))) + 0.25
